@@ -4,7 +4,11 @@ SPEC = {
              # sFlow: the model's rendering of sflowTree vs the real json.Marshal(datagram), byte for byte
              {"kind": "sflow", "quick": 8000, "thorough": 400000},
              # what is actually handed to the message queue by the real workers (1..64 of them): every payload must be the solo JSON of its datagram
-             {"kind": "pipeline", "quick": 48, "thorough": 1600, "runner": {"pkg": "./vflow", "test": "TestVerifPipeline", "race": False}}],
+             {"kind": "pipeline", "quick": 48, "thorough": 1600, "runner": {"pkg": "./vflow", "test": "TestVerifPipeline", "race": False}},
+             # the same with a stalling consumer: the message queue fills, publishes are dropped, then the consumer recovers —
+             # whatever is published afterwards must again be the solo JSON of one datagram (counts depend on the stall: no model comparison)
+             {"kind": "pipeline", "label": "pipeline-stall", "seed_offset": 47, "quick": 24, "thorough": 800, "model": False,
+              "runner": {"pkg": "./vflow", "test": "TestVerifPipeline", "race": False}, "env": {"VERIF_PIPE_STALL": "1"}}],
     "rule": "json: IPFIX / NetFlow v9 messages built directly from typed values (every Interpret result kind x content "
             "class: plain / quotes+backslashes / controls / HTML / multi-byte and invalid UTF-8 / random octets; NaN, +-Inf, "
             "64-bit extremes; IPv4, IPv6, v4-mapped and odd-length addresses), marshalled by the real JSONMarshal, compared "
